@@ -50,6 +50,10 @@ CHECKS = {
          "Held on every explored history: an interner model records every registration (direct, through parse, html5) and after every step every id <-> string pair, the read-only lookups and the built-in ids are re-checked in the store and in a clone; four long histories cross the former 16-bit width three times over (2*10^5 names, also through parse; 7*10^4 namespaces and prefixes) with all earlier ids re-resolved at 65 535 / 65 536 / 65 537 / 131 072 and at the end; exploration, not proof.",
          "Not exercised beyond 2*10^5 registrations per kind.",
          "reference-model monitor (interner) with long histories"),
+ "C19": ("DESIGN.md §5 C19, Appendix C",
+         "Held on every explored tree: HTML5 serialisation of documents, fragments with top-level text, inner elements and every kind of single detached node runs under catch_unwind + watchdog; Ok output must start with the doctype and is read by an independent HTML tokenizer aligned with the tree (unprefixed / not self-closed / end tag unless void for HTML elements, unprefixed under an xmlns declaration for MathML / SVG, text and attribute values decode back so that raw '<' '&' '\"' are caught, PI with '>' refused); exploration, not proof.",
+         "Void check on the intersection of the living-standard list and xot's; with indentation text is compared modulo white space; one open finding (real XHTML namespace not recognised, 2 signatures).",
+         "totality monitor + independent HTML tokenizer aligned with the tree"),
  "C20": ("DESIGN.md §5 C20",
          "Held on every explored document: parse of a rendering, fixed::Document / fixed::Element + xotify, and stepwise creation in four orders x three attribute styles must read back equal to the abstract document (incl. declarations, attribute order, leading / trailing top-level comments and PIs) and serialise to identical strings; exploration, not proof.",
          "XML-representable well-formed documents without the open F29 trigger.",
